@@ -285,3 +285,48 @@ def primitive_return_bytes(sx, p):
     want_b = want.encode('utf8')
     return sx.And(len(chunks) == 1, sx.eq(chunks[0], want_b),
                   len(schunks) == 1, sx.eq(schunks[0], s.encode('utf8')))
+
+
+from spyne.server.wsgi import _parse_qs
+
+
+def ref_quote(sx, text, space_as_plus):
+    """reference percent-encoder: unreserved characters literally, everything else as %XX (space optionally '+')"""
+    if not sx.symbolic:
+        import urllib.parse
+        return urllib.parse.quote_plus(text, safe='') if space_as_plus else urllib.parse.quote(text, safe='')
+    import z3
+    from symx.core import E
+    from symx.strs import CStr, _cz
+    out = []
+    for ch in text.c:
+        c = _cz(ch)
+        unres = z3.Or(z3.And(c >= 48, c <= 57), z3.And(c >= 65, c <= 90), z3.And(c >= 97, c <= 122), c == 45, c == 46,
+                      c == 95, c == 126)
+        if E.branch(unres):
+            out.append(ch)
+        elif space_as_plus and E.branch(c == 32):
+            out.append(43)
+        else:
+            hx = lambda v: z3.simplify(z3.If(v < 10, v + 48, v + 55))
+            from symx.core import SInt
+            sc = SInt(c)
+            out += [37, hx((sc // 16).z), hx((sc % 16).z)]
+    return CStr(out)
+
+
+@harness('C03', params=[1, 2, 3], label=lambda n: 'value length %d' % n,
+         functions=['spyne.server.wsgi._parse_qs'],
+         bounds={'value': 'every string of 1..3 characters over { a Z 0 space & ; = + % / } percent-encoded by a reference '
+                          'encoder (space as + or %20), between two other parameters'})
+def query_string_decoding(sx, n):
+    """a percent-encoded value comes out of the query-string parser exactly as it was, and does not disturb its
+    neighbours, whatever separators or escapes it contains"""
+    v = sx.text('v', n, alphabet='aZ0 &;=+%/')
+    plus = sx.choose('space_as_plus', [True, False])
+    qs = 'first=1&s=' + ref_quote(sx, v, plus) + '&last=x%3Dy'
+    got = _parse_qs(qs)
+    keys = list(got.keys())
+    if keys != ['first', 's', 'last']:
+        return False
+    return sx.And(got['first'] == ['1'], len(got['s']) == 1, sx.eq(got['s'][0], v), got['last'] == ['x=y'])
